@@ -497,8 +497,37 @@ pub struct ChildStdin(Attacher<process::ChildStdin>);
 
 impl ChildStdin {
     fn new(stdin: process::ChildStdin) -> io::Result<Self> {
+        // The polling driver calls `write(2)` on the runtime thread once the pipe is
+        // writable. On a blocking pipe that call returns only after the whole buffer
+        // has been written, which stalls every other task of the runtime - and never
+        // returns when the child's progress depends on one of them (e.g. a task
+        // reading the child's stdout). Make our end of the pipe non-blocking there;
+        // the driver re-arms the operation on `EAGAIN`.
+        #[cfg(unix)]
+        if compio_runtime::Runtime::with_current(|r| r.driver_type()).is_polling() {
+            set_nonblocking(&stdin, true)?;
+        }
         Attacher::new(stdin).map(Self)
     }
+}
+
+/// Sets or clears `O_NONBLOCK` on the open file description of `fd`.
+#[cfg(unix)]
+fn set_nonblocking(fd: &impl AsRawFd, nonblocking: bool) -> io::Result<()> {
+    let fd = fd.as_raw_fd();
+    let flags = unsafe { libc::fcntl(fd, libc::F_GETFL) };
+    if flags == -1 {
+        return Err(io::Error::last_os_error());
+    }
+    let new_flags = if nonblocking {
+        flags | libc::O_NONBLOCK
+    } else {
+        flags & !libc::O_NONBLOCK
+    };
+    if new_flags != flags && unsafe { libc::fcntl(fd, libc::F_SETFL, new_flags) } == -1 {
+        return Err(io::Error::last_os_error());
+    }
+    Ok(())
 }
 
 impl TryFrom<ChildStdin> for process::Stdio {
@@ -509,7 +538,12 @@ impl TryFrom<ChildStdin> for process::Stdio {
             .0
             .into_inner()
             .try_unwrap()
-            .map(Self::from)
+            .map(|stdin| {
+                // The next owner of the pipe end expects a blocking descriptor.
+                #[cfg(unix)]
+                let _ = set_nonblocking(&stdin, false);
+                Self::from(stdin)
+            })
             .map_err(|fd| ChildStdin(unsafe { Attacher::from_shared_fd_unchecked(fd) }))
     }
 }
